@@ -30,10 +30,11 @@ type wdM struct {
 }
 
 type wdCand struct {
-	Txid []byte
-	Raw  []byte
-	Vals []uint64
-	Fee  uint64
+	wrongHeaderTried bool // the directed first attempt with a wrong header has been made
+	Txid             []byte
+	Raw              []byte
+	Vals             []uint64
+	Fee              uint64
 	// where it was mined (ground truth), 0 = not mined
 	Height uint64
 	Index  int
@@ -732,6 +733,12 @@ func c05Gen(m *wdMon, blk, nBlocks, idx int, addrPool []addrCase) {
 				perturb := ""
 				if r.Intn(2) == 0 {
 					perturb = finalizePerturbs[r.Intn(len(finalizePerturbs))]
+				}
+				if !cd.wrongHeaderTried {
+					// directed: the first finalisation attempt for every mined candidate names a wrong header; the genuine one
+					// for the same height follows in a later block (a refused message must leave nothing behind for it)
+					cd.wrongHeaderTried = true
+					perturb = "wrong-header"
 				}
 				if op := m.finalizeOp(p, cd, perturb); op != nil {
 					b.ops = append(b.ops, op)
